@@ -51,10 +51,18 @@ def gen(rng, tier):
             abf += " maxForce %s\n" % " ".join(num(x) for x in mf)
         abf += " integrate off\n}\n"
         harm = rng.rand() < 0.5
+        # the companion bias is sometimes a pair of walls strictly inside the grid (their force bypasses the extended-Lagrangian path
+        # of the variable, `fb_actual`; it is part of the applied force all the same)
+        walls = harm and (k % 3 == 1) and not any(per)
+        wk = rng.choice([1.0, 4.0])
+        wl = [lo[i] + 0.3 * (hi[i] - lo[i]) for i in range(nd)]; wu = [hi[i] - 0.3 * (hi[i] - lo[i]) for i in range(nd)]
         hk = rng.choice([0.5, 2.0, 4.0]); hc = [rng.uniform(lo[i], hi[i]) for i in range(nd)]
         hconf = "harmonic {\n name hr\n colvars %s\n forceConstant %s\n centers %s\n}\n" % (
             " ".join("x%d" % i for i in range(nd)), num(hk), " ".join(num(x) for x in hc))
         lines = ["m.new %d" % nd, "m.opt tf_same %d" % (1 if tf_same else 0), "m.opt tfloop 1", cfg(conf), cfg(abf)]
+        if walls:
+            hconf = "harmonicWalls {\n name hr\n colvars %s\n forceConstant %s\n lowerWalls %s\n upperWalls %s\n}\n" % (
+                " ".join("x%d" % i for i in range(nd)), num(wk), " ".join(num(x) for x in wl), " ".join(num(x) for x in wu))
         if harm:
             lines.append(cfg(hconf))
         lines += ["M.cv x%d %d %s %s %s %d" % (i, i, fbits(w[i]), fbits(per[i]), fbits(wc[i]), 1 if sub[i] else 0) for i in range(nd)]
@@ -63,7 +71,10 @@ def gen(rng, tier):
             nd, " ".join("x%d" % i for i in range(nd)), " ".join(map(fbits, lo)), " ".join(map(fbits, hi)), " ".join(map(fbits, w)),
             full_eff, mn_eff, 1 if apply_b else 0, 1 if update_b else 0, 1 if (nd == 1 and per[0]) else 0, 1 if step0 else 0,
             1 if has_max else 0, " ".join(map(fbits, mf))))
-        if harm:
+        if walls:
+            lines.append("M.restr hr walls %d %s k=%s lw=%s uw=%s lk=%s uk=%s" % (nd, " ".join("x%d" % i for i in range(nd)), fbits(wk),
+                                                                              ",".join(fbits(x) for x in wl), ",".join(fbits(x) for x in wu), fbits(1.0), fbits(1.0)))
+        elif harm:
             lines.append("M.harm hr %d %s %s %s" % (nd, " ".join("x%d" % i for i in range(nd)), fbits(hk), " ".join(map(fbits, hc))))
         nsteps = rng.randint(8, 40) if tier == "quick" else rng.randint(8, 120)
         hist = []
@@ -94,7 +105,8 @@ def gen(rng, tier):
         lines.append("a.dump abf")
         cases.append({"lines": lines, "meta": {"nd": nd, "tf_same": tf_same, "sub": sub, "lo": lo, "hi": hi, "w": w, "period": per, "wrap": wc,
                                                 "full": full_eff, "min": mn_eff, "apply": apply_b, "update": update_b, "step0": step0,
-                                                "maxForce": mf if has_max else None, "harm": (hk, hc) if harm else None, "history": hist},
+                                                "maxForce": mf if has_max else None, "harm": (hk, hc) if (harm and not walls) else None,
+                                                "walls": (wk, wl, wu) if walls else None, "history": hist},
                       "nontrivial": True})
     return cases
 
@@ -107,7 +119,7 @@ def distribution(cases):
             continue
         d["nd"][m["nd"]] = d["nd"].get(m["nd"], 0) + 1
         d["tf_same"] += int(m["tf_same"]); d["subtract"] += int(any(m["sub"])); d["periodic"] += int(any(m["period"]))
-        d["harmonic"] += int(m["harm"] is not None); d["steps"] += len(m["history"]); d["cont_steps"] += sum(1 for h in m["history"] if h["cont"])
+        d["harmonic"] += int(m["harm"] is not None); d["walls"] = d.get("walls", 0) + int(m.get("walls") is not None); d["steps"] += len(m["history"]); d["cont_steps"] += sum(1 for h in m["history"] if h["cont"])
         d["maxForce"] += int(m["maxForce"] is not None); d["applyBias_off"] += int(not m["apply"])
     return d
 
@@ -173,6 +185,11 @@ def oracle(case, out):
                 if m["period"][i]:
                     P = m["period"][i]; d = d - math.floor(d / P + 0.5) * P
                 fharm[i] = -hk / (m["w"][i] ** 2) * d
+        if m.get("walls"):
+            wk, wl, wu = m["walls"]
+            for i in range(nd):
+                d = (xs[i] - wl[i]) if xs[i] < wl[i] else ((xs[i] - wu[i]) if xs[i] > wu[i] else 0.0)
+                fharm[i] = -wk / (m["w"][i] ** 2) * d
         fabf = [fa[i] - fharm[i] for i in range(nd)]
         elig = ((it > 0 and not cont) or m["step0"]) and m["update"] and (it > 0 or m["tf_same"])
         if elig:
